@@ -90,28 +90,15 @@ class Observer:
         return " ".join(out)
 
     def pake_kind(self, body):
-        """good: parses and SPAKE2 accepts the element; nofield: no usable `pake_v1` (not JSON, not an object, missing,
-        not a hex string); invalid: SPAKE2 rejects the element (wrong size, not in the group, our own reflected)"""
-        import copy
-        from spake2 import SPAKE2_Symmetric
-        try:
-            d = bytes_to_dict(body)
-            el = bytes.fromhex(d["pake_v1"])
-            if not isinstance(d["pake_v1"], str):
-                return "nofield"
-        except Exception:
-            return "nofield"
-        sp = getattr(self.c.boss._K._SK, "_sp", None)
-        try:
-            if sp is not None:
-                copy.deepcopy(sp).finish(el)
-            else:
-                t = SPAKE2_Symmetric(b"probe", idSymmetric=b"probe")
-                t.start()
-                t.finish(el)
-        except Exception:
-            return "invalid"
-        return "good"
+        """good: parses and SPAKE2 accepts the element; nofield: no usable `pake_v1` (not UTF-8, not JSON, not an object,
+        missing, not a string, not ASCII, not hex — whatever the statement that fails raises); invalid: SPAKE2 rejects the
+        element (side byte, empty, not on the curve, zero / wrong subgroup, our own reflected).  The statements of
+        got_pake / bytes_to_dict / hexstr_to_bytes are re-walked here with the standard library only, and every delivered
+        body is tagged `pake-raise:<statement>:<exception class>` for the evidence."""
+        stage, exc = pake_stage(body, getattr(self.c.boss._K._SK, "_sp", None))
+        if "pake" not in self.c.boss._M._processed:
+            self.tags.add("pake-raise:%s:%s" % (stage, exc))
+        return "good" if stage == "accepted" else "invalid" if stage == "finish" else "nofield"
 
     def classify_frame(self, payload):
         """server→client frame → model event line"""
@@ -346,6 +333,72 @@ class Observer:
             return "internal:" + nm
 
 
+def pake_stage(body, sp=None):
+    """which statement of _SortedKey.got_pake / bytes_to_dict / hexstr_to_bytes / SPAKE2.finish raises what on this PAKE
+    body: (statement, exception class name), or ("accepted", "-").  `sp`: the client's own SPAKE2 state."""
+    import binascii
+    import copy
+    try:
+        s = body.decode("utf-8")
+    except Exception as e:
+        return "decode", type(e).__name__
+    try:
+        d = json.loads(s)
+    except Exception as e:
+        return "loads", type(e).__name__
+    if not isinstance(d, dict):
+        return "isdict", "AssertionError"
+    try:
+        v = d["pake_v1"]
+    except Exception as e:
+        return "index", type(e).__name__
+    if not isinstance(v, str):
+        return "isstr", "AssertionError"
+    try:
+        a = v.encode("ascii")
+    except Exception as e:
+        return "ascii", type(e).__name__
+    try:
+        el = binascii.unhexlify(a)
+    except Exception as e:
+        return "unhexlify", type(e).__name__
+    if sp is not None:
+        probe = copy.deepcopy(sp)
+    else:
+        from spake2 import SPAKE2_Symmetric
+        probe = SPAKE2_Symmetric(b"probe", idSymmetric=b"probe")
+        probe.start()
+    try:
+        probe.finish(el)
+    except Exception as e:
+        msg = str(e)
+        what = ("zero" if "was Zero" in msg else "wrong-group" if "right group" in msg else "empty" if "invalid literal" in msg
+                else "side" if isinstance(e, AssertionError) or "Symmetric" in msg else "")
+        return "finish", type(e).__name__ + (":" + what if what else "")
+    return "accepted", "-"
+
+
+def unusable_pake_bodies():
+    """one PAKE body per (statement, exception class) of the key exchange's parsing — see harness/props/c14.py
+    (`pake_bodies`) for the complete table; these are the representatives the shared walks and the shared corpus draw from"""
+    st = "53b2effba026fbcce2ce2add2c9d604e3abf304286e7eedea56686b548896640c0"        # a valid element of a stranger
+
+    def J(h):
+        return ('{"pake_v1": "%s"}' % h).encode("ascii")
+    return {"hugeint": b'{"pake_v1": ' + b"1" * 5000 + b"}",                       # json.loads: plain ValueError (digit limit)
+            "hugeint-elsewhere": b'{"x": ' + b"7" * 5000 + b', "pake_v1": "00"}',
+            "bom": b"\xef\xbb\xbf" + J("00"), "emptybody": b"",                     # JSONDecodeError
+            "null": b'{"pake_v1": null}', "nan": b'{"pake_v1": NaN}', "topstring": b'"pake_v1"',
+            "nonascii": b'{"pake_v1": "\\u00e9\\u00e9"}',                            # hexstr.encode("ascii"): UnicodeEncodeError
+            "surrogate": b'{"pake_v1": "\\ud800"}', "fullwidth": '{"pake_v1": "\uff10\uff10"}'.encode("utf-8"),
+            "oddhex": J("000"), "hexspace": J("00 00"),                              # binascii.Error
+            "deepvalue": b'{"pake_v1": ' + b"[" * 100000 + b"]" * 100000 + b"}",     # RecursionError
+            "emptyelement": J(""), "sideA": J("41" + st[2:]), "sideonly": J("53"),   # finish(): assert / OffSides / int("")
+            "zero": J("5301" + "00" * 31), "order4": J("53" + "00" * 32),
+            "order8": J("5326e8958fc2b227b045c3f489f2ef98f0d5dfac05d3c63339b13802886d53fc05"),
+            "trailing": J(st + "0001"), "identity": J("5301")}                       # accepted by SPAKE2: a stranger's key
+
+
 def automat_state_of(client, attr):
     from .util import automat_state
     return automat_state(getattr(client.boss, attr))
@@ -551,13 +604,16 @@ def guided(seed, n_ops, profile, welcome_error=None, finish_run=False):
                     if ph3 == "pake":
                         from spake2 import SPAKE2_Symmetric
                         kind = rng.choice(["stranger", "stranger", "empty", "nonjson", "list", "int", "nonhex", "short",
-                                           "zero33", "notingroup", "offcurve", "random32", "deepjson", "reflect"])
+                                           "zero33", "notingroup", "offcurve", "random32", "deepjson", "reflect"]
+                                          + sorted(unusable_pake_bodies()))
                         if kind == "stranger":
                             el = SPAKE2_Symmetric(b"9-some-stranger", idSymmetric=b"x").start()
                             body3 = dict_to_bytes({"pake_v1": el.hex()})
                         elif kind == "reflect":
                             mine = [m for m in W.sent[0] if m.get("type") == "add" and m.get("phase") == "pake"]
                             body3 = bytes.fromhex(mine[0]["body"]) if mine else b"{}"
+                        elif kind in unusable_pake_bodies():
+                            body3 = unusable_pake_bodies()[kind]
                         else:
                             body3 = {"empty": b"{}", "nonjson": b"\xff\xfe", "list": b"[]", "int": b'{"pake_v1": 5}',
                                      "nonhex": b'{"pake_v1": "zz"}', "short": b'{"pake_v1": "00"}',
@@ -770,6 +826,7 @@ def hostile_corpus():
              "zero33": dict_to_bytes({"pake_v1": "00" * 33}).hex(), "notingroup": dict_to_bytes({"pake_v1": "53" + "ff" * 32}).hex(),
              "offcurve": dict_to_bytes({"pake_v1": "53" + "02" + "00" * 31}).hex(), "deepjson": (b"[" * 5000).hex(),
              "reflect": "REFLECT"}
+    kinds.update({k: v.hex() for k, v in unusable_pake_bodies().items()})
     T = "7h1rd51de"
     code = "4-purple-sausages"
     junk = "00" * 60
@@ -799,7 +856,8 @@ def run_trace_case(case, oracle):
     """replays an abstract event trace (wvsearch syntax) on a REAL client through harness/direct.py"""
     from . import direct
     from .core import Result
-    summary = direct.replay_trace(case["lines"], match=case.get("match", True), seed=case.get("seed", 0))
+    summary = direct.replay_trace(case["lines"], match=case.get("match", True), seed=case.get("seed", 0),
+                                  variant=case.get("variant", 0))
     summary.setdefault("hist", dict(good=False, bad=False, server_error=False, welcome_error=False))
     summary.setdefault("at_closed", None)
     viol = oracle(summary)
@@ -824,6 +882,12 @@ def model_guided(oracle, modes=("",)):
             c2 = dict(case)
             c2["lines"] = trace + extra
             yield c2, run_trace_case(c2, oracle)
+        # … and, when the trace contains an unusable PAKE, the same trace with every other body of that class (each
+        # statement of the parsing raising each of its exception classes)
+        if any(l.startswith("msg theirs pake") and l.split()[-1] in ("nofield", "invalid") for l in trace):
+            for v in range(1, max(len(x) for x in direct.pake_variants())):
+                c3 = dict(case, variant=v)
+                yield c3, run_trace_case(c3, oracle)
 
 
 def trace_shrink(case):
